@@ -752,3 +752,43 @@ package quic
 //@   ensures [length-field] implies(result1 == nil, header.Length == header.PacketNumberLen + ovh + (plen - hl - ovh) && result0.header == header)
 //@   ensures [pn-consumed-once] implies(result1 == nil, called("(quic.packetNumberManager).PopPacketNumber") == 1)
 //@   modifies header.Length, buffer.Data, elems(uint8)
+
+// ---------------- transport parameter suppression (C11) ----------------
+// The parameter identifier is modelled as a function of the interface value: ID() is stable once drawn (GREASE
+// parameters memoise their random identifier on the first call).
+//@ spec tpid(tp tls.TransportParameter) uint64 = uint64(uf("tpid", tp))
+//@ iface (tp tls.TransportParameter) ID
+//@   ensures result == tpid(tp)
+//@   modifies nothing
+
+//@ func IsGREASEQTPID
+//@   props C11
+//@   ensures [iff] iff(result, id >= 27 && (id - 27) % 31 == 0)
+//@   modifies nothing
+
+//@ spec listed(sup []uint64, n int, id int) bool = exists(k, 0, n, sup[k] == id)
+//@ spec dropped(sup []uint64, id int) bool = (id != 27 && listed(sup, len(sup), id)) || (listed(sup, len(sup), 27) && id >= 27 && (id - 27) % 31 == 0)
+
+//@ func SuppressQUICTransportParameters
+//@   props C11
+//@   opt forkappend yes
+//@   requires qtp == nil || len(qtp.TransportParameters) <= 65536
+//@   requires len(suppress) <= 65536
+//@   ensures [returns-arg] result == qtp
+//@   ensures [noop] implies(qtp != nil && len(suppress) == 0, len(qtp.TransportParameters) == old(len(qtp.TransportParameters)) && samearray(qtp.TransportParameters, old(qtp.TransportParameters)))
+//@   ensures [none-left] implies(qtp != nil && len(suppress) > 0, forall(j, 0, len(qtp.TransportParameters), !dropped(suppress, tpid(qtp.TransportParameters[j]))))
+//@   ensures [only-shrinks] implies(qtp != nil, len(qtp.TransportParameters) <= old(len(qtp.TransportParameters)) && samearray(qtp.TransportParameters, old(qtp.TransportParameters)))
+//@   modifies qtp.TransportParameters, qtp.TransportParameters[*]
+//@ loop SuppressQUICTransportParameters #0
+//@   invariant 0 <= rangeidx && rangeidx <= len(suppress)
+//@   invariant iff(suppressGREASE, listed(suppress, rangeidx, 27))
+//@   invariant forall(x, iff(has(ids, x), x != 27 && listed(suppress, rangeidx, x)))
+//@   invariant isfresh(ids)
+//@   modifies ids[*]
+//@ loop SuppressQUICTransportParameters #1
+//@   invariant 0 <= rangeidx && rangeidx <= old(len(qtp.TransportParameters)) && old(len(qtp.TransportParameters)) <= old(cap(qtp.TransportParameters))
+//@   invariant iff(suppressGREASE, listed(suppress, len(suppress), 27))
+//@   invariant forall(x, iff(has(ids, x), x != 27 && listed(suppress, len(suppress), x)))
+//@   invariant len(kept) <= rangeidx && samearray(kept, old(qtp.TransportParameters)) && cap(kept) == old(cap(qtp.TransportParameters))
+//@   invariant forall(j, 0, len(kept), !has(ids, tpid(kept[j])) && !(suppressGREASE && tpid(kept[j]) >= 27 && (tpid(kept[j]) - 27) % 31 == 0), trig(kept, j))
+//@   modifies old(qtp.TransportParameters)[*]
